@@ -17,11 +17,12 @@ class DirAngles:
         return self.v / 180 * np.pi
 
 
-def request(m, dirs):
+def request(m, dirs, env=None):
+    """`env='ideal'`: the same structure and currents over a perfect ground (whatever the media of `m` are)"""
     t = ['far run', f2b(m.f)]
     if not m.media:
         t.append('free')
-    elif m.media[0].is_ideal:
+    elif m.media[0].is_ideal or env == 'ideal':
         t.append('ideal')
     else:
         md = m.media
@@ -42,8 +43,8 @@ def request(m, dirs):
     return t
 
 
-def model_far(d, m, dirs):
-    ans = d.ask(*request(m, dirs))
+def model_far(d, m, dirs, env=None):
+    ans = d.ask(*request(m, dirs, env))
     v = [b2f(x) for x in ans.split()]
     out = []
     for i in range(0, len(v), 10):
